@@ -9,6 +9,7 @@ import (
 	"errors"
 	"fmt"
 	"os"
+	"strings"
 	"sync"
 	"time"
 
@@ -313,5 +314,5 @@ func main() {
 			"liveness branches `launched == nil` / `registered == nil` are unreachable: StatusConditions() initialises both conditions",
 		},
 	}
-	c.Finish("From KV Require Import C16.Model C16.Check.", "case", "check_all", 600)
+	c.Finish("From KV Require Import C16.Model C16.Check.\n"+strings.Join(condDefs, "\n"), "case", "check_all", 600)
 }
